@@ -193,8 +193,17 @@ func (e *Exec) builtinAppend(g *G, s SliceV, tv Value) Value {
 		return SliceV{A: s.A, G: s.G, Elem: elem, Off: s.Off, Len: newLen, Cap: s.Cap}
 	}
 	n := int(e.concretize(newLen, "append new length"))
-	capN := n
-	if capN < 8 {
+	// growth like the Go runtime for small slices: double, at least what is needed; byte-sized
+	// elements round up to 8 (malloc size class). Reallocation aliasing bugs depend on this.
+	oldCap := 0
+	if !s.IsNil() {
+		oldCap = int(e.concretize(s.Cap, "append old cap"))
+	}
+	capN := 2 * oldCap
+	if capN < n {
+		capN = n
+	}
+	if _, isScalar := isScalarElem(elem); isScalar && capN < 8 {
 		capN = 8
 	}
 	ns := e.makeSlice(elem, tc.Const(64, uint64(n)), capN)
@@ -683,9 +692,16 @@ func registerSync(p *Program) {
 		g.vc.join(w.vc)
 		return nil
 	})
-	// sync.Pool: Get calls New, Put drops
+	// sync.Pool: LIFO reuse of what was Put (the adversarial, and common, behaviour); New otherwise
 	p.reg("(*sync.Pool).Get", func(e *Exec, g *G, a []Value) Value {
 		pc := a[0].(PtrV).C
+		g.vc.tick(g.id)
+		if st := e.pools[pc]; st != nil && len(st.items) > 0 {
+			v := st.items[len(st.items)-1]
+			st.items = st.items[:len(st.items)-1]
+			g.vc.join(st.vc)
+			return v
+		}
 		poolT := pc.T.Underlying().(*types.Struct)
 		for i := 0; i < poolT.NumFields(); i++ {
 			if poolT.Field(i).Name() == "New" {
@@ -698,7 +714,18 @@ func registerSync(p *Program) {
 		}
 		return IfaceV{}
 	})
-	p.reg("(*sync.Pool).Put", func(e *Exec, g *G, a []Value) Value { return nil })
+	p.reg("(*sync.Pool).Put", func(e *Exec, g *G, a []Value) Value {
+		pc := a[0].(PtrV).C
+		st := e.pools[pc]
+		if st == nil {
+			st = &poolState{vc: VC{}}
+			e.pools[pc] = st
+		}
+		g.vc.tick(g.id)
+		st.vc.join(g.vc)
+		st.items = append(st.items, a[1])
+		return nil
+	})
 
 	// atomics on plain cells
 	atomLoad := func(e *Exec, g *G, a []Value) Value {
@@ -837,6 +864,57 @@ func registerSync(p *Program) {
 		return e.tc.Bool(false)
 	})
 	p.reg("runtime.Gosched", func(e *Exec, g *G, a []Value) Value { return nil })
+
+	// sync.Map as an association list keyed by interface values (its internals use unsafe)
+	smap := func(e *Exec, v Value) *MapV {
+		c := v.(PtrV).C
+		if m, ok := e.syncMaps[c]; ok {
+			return m
+		}
+		e.nextID++
+		m := &MapV{ID: e.nextID}
+		e.syncMaps[c] = m
+		return m
+	}
+	p.reg("(*sync.Map).Load", func(e *Exec, g *G, a []Value) Value {
+		m := smap(e, a[0])
+		g.vc.tick(g.id)
+		if en := e.mapFind(m, a[1]); en != nil {
+			return TupleV{en.V, e.tc.Bool(true)}
+		}
+		return TupleV{IfaceV{}, e.tc.Bool(false)}
+	})
+	p.reg("(*sync.Map).Store", func(e *Exec, g *G, a []Value) Value {
+		m := smap(e, a[0])
+		g.vc.tick(g.id)
+		if en := e.mapFind(m, a[1]); en != nil {
+			en.V = a[2]
+			return nil
+		}
+		m.E = append(m.E, &mapEntry{K: a[1], V: a[2]})
+		return nil
+	})
+	p.reg("(*sync.Map).LoadOrStore", func(e *Exec, g *G, a []Value) Value {
+		m := smap(e, a[0])
+		g.vc.tick(g.id)
+		if en := e.mapFind(m, a[1]); en != nil {
+			return TupleV{en.V, e.tc.Bool(true)}
+		}
+		m.E = append(m.E, &mapEntry{K: a[1], V: a[2]})
+		return TupleV{a[2], e.tc.Bool(false)}
+	})
+	p.reg("(*sync.Map).Delete", func(e *Exec, g *G, a []Value) Value {
+		m := smap(e, a[0])
+		if en := e.mapFind(m, a[1]); en != nil {
+			for i, x := range m.E {
+				if x == en {
+					m.E = append(append([]*mapEntry{}, m.E[:i]...), m.E[i+1:]...)
+					break
+				}
+			}
+		}
+		return nil
+	})
 }
 
 func (e *Exec) wakeLockWaiters() {
